@@ -95,6 +95,32 @@ def schedule(rng, n, flow):
 def cases(rng, tier, X):
     n = 300 if tier == 'quick' else 30000
     out = [('sch%d' % k, schedule(rng, rng.randint(50, 500 if tier == 'thorough' else 250), k % 2 == 0)) for k in range(n)]
+    # the daemon's steady beat from a given clock origin (0 = a clock counted from process start): the Discover flow early in the
+    # FIRST second, then a tick every 100 ms (sometimes 50 / 250), Hellos heard and further Discovers in between
+    for k in range(40 if tier == 'quick' else 3000):
+        ops = ['fsm new 0 map', 'fsm new 1 enum', 'tbl new 0']
+        origin = rng.choice([0, 0, 0, 1, 150, 700, 999, 1000, 5000, 2**32 - 450, 2**32 * 1000 - 300])
+        if origin:
+            ops.append('clock %d' % origin)
+        ops.append('clock %d' % rng.choice([0, 1, 50, 130, 250, 440]))
+        pre = []
+        glue_frame(rng, pre, 'discover')
+        beat = rng.choice([100, 100, 100, 50, 250])
+        body = pre + ['tick 0 1 0 wired']
+        for i in range(rng.randint(15, 60)):
+            body.append('clock %d' % beat)
+            r = rng.random()
+            if r < 0.08:
+                glue_frame(rng, body, 'hello')
+            elif r < 0.12:
+                glue_frame(rng, body, 'discover')
+            body.append('tick 0 1 0 wired')
+        for o in body:
+            if o == 'GLUE_DISCOVER':
+                ops += rng.choice([['band init 1', 'band choose 1'], ['band begun 1']]) + ['fsm step 1 3']
+            else:
+                ops.append(o)
+        out.append(('beat%d' % k, ops))
     # universal automata schedule (all public calls, missing objects, near-colliding keys, bridged frames, every deadline): this check's predicate on it
     for k in range(60 if tier == 'quick' else 6000):
         out.append(('au%d' % k, auto.schedule(rng)))
